@@ -55,4 +55,20 @@ def bcf_proof():
                  expect=['backup_copy_file_contract.postcondition', 'loop_decreases'], drop_flags=['--conversion-check'],
                  mutants=[('md5_compare_inverted', r'if \(memcmp\(md5_str, md5_str_in, 32\) == 0\)', 'if (memcmp(md5_str, md5_str_in, 32) != 0)', 'postcondition'),
                           ('fwrite_unchecked', r'if \(  retval == 1\n         \|\| data.empty\(\)\)', 'if (true)', 'postcondition'),
+                          ('backup_close_unchecked', r'if \(  fclose\(thefile\) != 0\n         && \(  retval == 1\n            \|\| data.empty\(\)\)\)', 'fclose(thefile);\n      if (false)', 'postcondition'),
                           ('compares_31_chars', r'memcmp\(md5_str, md5_str_in, 32\)', 'memcmp(md5_str, md5_str_in, 31)', 'postcondition|precondition')])
+
+
+def md5file_proof():
+    env = ['fopen/fopen_md5_contract', 'fread/fread_contract', 'ferror/ferror_src_contract', 'fclose/fclose_md5_contract', 'c_md5_update/md5_update_contract', 'c_md5_final/md5_final_contract',
+           'c_write_md5_line/write_md5_line_contract', 'exit/exit_contract']
+    return Proof('backup_create_md5_file', impl='contracts/fileio/backup.impl.cpp', spec='contracts/fileio/backup.spec.c', harness='h_backup_create_md5_file',
+                 enforce='backup_create_md5_file/backup_create_md5_file_contract', replace=env, canaries=2, defines=['MD5FILE_PROOF'], timeout=900,
+                 loops=[dict(fn='backup_create_md5_file', id=0, vars=['len', 'buf'], assigns='len, g_src_pos, g_src_error, g_last_buf, g_last_n, g_fed, g_fed_in_order, __CPROVER_object_whole(buf)',
+                             inv='g_src_pos <= g_src_len && g_fed_in_order && g_fed == g_src_pos && (%s ==> g_src_error)' % '__CPROVER_loop_entry(g_src_error)',
+                             decreases='g_src_len - g_src_pos')],
+                 partial_loops=True, drop_flags=['--conversion-check'],
+                 assumed=['fread / fopen / fclose (libc over a ghost file of arbitrary length)', 'MD5::Update / MD5::Final: a digest of the bytes fed, in order (the MD5 implementation itself is not verified)'],
+                 functions=['backup.cpp:backup_create_md5_file'], expect=['backup_create_md5_file_contract.postcondition', 'loop_decreases'],
+                 mutants=[('feeds_wrong_length', r'md5.Update\(buf, len\);', 'md5.Update(buf, sizeof(buf));', 'postcondition|loop_invariant'),
+                          ('read_error_ignored', r'if \(ferror\(thefile\)\)', 'if (false)', 'postcondition')])
